@@ -2,7 +2,8 @@
 import interp_common
 
 MODULES = ["Props.C01"]
-THEOREMS = ["Props.C01.c01_runloop", "Props.C01.c01_toplevel"]
+THEOREMS = ["Props.C01.c01_runloop", "Props.C01.c01_toplevel", "Props.C01.c01_compare_ints", "Props.C01.c01_not", "Props.C01.c01_and",
+            "Props.C01.c01_or"]
 
 
 def run(check, tier):
